@@ -206,7 +206,7 @@ func checkMarching2(c *vlib.Case, api string, s *fsolid2, delta float64, iters i
 }
 
 func marching2(r *vlib.Run) {
-	r.Section("ms.csg", r.N(800, 8000), vlib.SectionOpts{}, func(c *vlib.Case) {
+	r.Section("ms.csg", r.N(800, 30000), vlib.SectionOpts{}, func(c *vlib.Case) {
 		rng := c.Rng
 		s := csg2(rng, 3)
 		var delta, dyadic float64
